@@ -67,6 +67,12 @@ def lemma_instances(libm):
                 out.append(z3.Implies(b > 0, r == b))
             if b.get_id() == r.get_id():
                 out.append(rl == a)
+    # order isomorphism between a logarithm and the exponentials on the path:  g < log(x) <=> exp(g) < x   (x > 0)
+    for (x,), l in by.get('log', []):
+        for (g,), e in by.get('exp', []):
+            out.append(z3.Implies(z3.And(x > 0, g < l), e < x))
+            out.append(z3.Implies(z3.And(x > 0, g > l), e > x))
+            out.append(z3.Implies(z3.And(x > 0, g == l), e == x))
     for args, r in by.get('pow', []):
         x, y = args
         out += [z3.Implies(x > 0, r > 0), z3.Implies(y == 0, r == one), z3.Implies(y == 1, r == x),
